@@ -27,6 +27,7 @@ For every family
 The model side is what the theorems of lean/JS/Props/C18.lean are about.
 """
 import copy
+import itertools
 import json
 import os
 import subprocess
@@ -589,6 +590,7 @@ def campaign(ctx):
                     res.disagree("SYS", dict(case, sched=s), m, i, d)
         threads_exploration(ctx, families)
         handlers_independent(ctx)
+        deep_twins(ctx)
     finally:
         if pristine is not None:
             pristine.close()
@@ -654,6 +656,73 @@ def handlers_independent(ctx):
             res.fail("handlers:failure-remembered-across-resolvers",
                      "after another validator failed to retrieve %s, a validator with its own handler gave %r / %r, entitled to %r" % (url, got, again, want_b), case)
 
+
+
+def deep_twins(ctx):
+    """two unrelated validators deep inside recursive references AT THE SAME TIME: one iterator is
+    parked at an error more than a hundred reference levels down (its frames are gone, whatever it
+    counts is not), the other then runs to the end (and the other way round, and with both parked).
+    Each must report what it reports alone. Depths are chosen so that each run alone stays well
+    below the interpreter's recursion limit."""
+    res, r = ctx.res, ctx.r
+    V, E = impl.V, impl.E
+
+    def nest(depth, leaf, shape):
+        x = leaf
+        for _ in range(depth):
+            x = {"n": x} if shape == "object" else [x]
+        return x
+
+    def run(it):
+        out = []
+        try:
+            for e in it:
+                out.append((len(e.absolute_path), e.validator, e.message[:60]))
+        except E.RefResolutionError as exc:
+            out.append("RefResolutionError:" + str(exc)[:60])
+        except RecursionError:
+            out.append("RecursionError")
+        except Exception as exc:        # noqa: BLE001
+            out.append("raised:" + type(exc).__name__)
+        return out
+
+    for n in range(max(2, ctx.n(3))):
+        tag = r.choice(["d4", "d6", "d7"])
+        cls = impl.DRAFTS[tag]
+        shape_a, shape_b = r.choice(["object", "array"]), r.choice(["object", "array"])
+
+        def schema_for(shape):
+            if shape == "object":
+                return {"type": ["object", "integer"], "properties": {"n": {"$ref": "#"}}}
+            return {"type": ["array", "integer"], "items": {"$ref": "#"}}
+        da, db = r.randrange(126, 134), r.randrange(126, 134)
+        sa, sb = schema_for(shape_a), schema_for(shape_b)
+        ia, ib = nest(da, "leaf", shape_a), nest(db, None, shape_b)
+        case = {"cls": tag, "schemas": [sa, sb], "depths": [da, db], "shapes": [shape_a, shape_b]}
+        res.note(hash(codec.canon(["c18deep", case, n])), True, None)
+        _bump(res, "evaluations", 4)
+        alone_a, alone_b = run(cls(sa).iter_errors(ia)), run(cls(sb).iter_errors(ib))
+        if "RecursionError" in alone_a or "RecursionError" in alone_b or not alone_a or not alone_b:
+            continue            # this interpreter cannot go that deep even alone: nothing to compare
+        va, vb = cls(copy.deepcopy(sa)), cls(copy.deepcopy(sb))
+        ita = va.iter_errors(ia)
+        first = run(itertools.islice(ita, 1))          # parked at the deep end
+        got_b = run(vb.iter_errors(ib))
+        rest_a = run(ita)
+        if got_b != alone_b:
+            res.fail("deep-twins:other-validator-parked",
+                     "with another validator's iterator parked %d reference levels deep, a validator %d levels deep gave %r; alone it gives %r"
+                     % (da, db, got_b[:2], alone_b[:2]), case)
+        elif first + rest_a != alone_a:
+            res.fail("deep-twins:resumed-differs", "the parked iterator, resumed, gave %r; alone %r" % ((first + rest_a)[:2], alone_a[:2]), case)
+        # both parked, then both resumed
+        va, vb = cls(copy.deepcopy(sa)), cls(copy.deepcopy(sb))
+        ita, itb = va.iter_errors(ia), vb.iter_errors(ib)
+        fa = run(itertools.islice(ita, 1))
+        fb = run(itertools.islice(itb, 1))
+        if fa + run(ita) != alone_a or fb + run(itb) != alone_b:
+            res.fail("deep-twins:both-parked", "two iterators parked deep inside references at once do not report what each reports alone", case)
+        _dist(res, "directed:deep-twins", 1)
 
 def threads_exploration(ctx, families):
     """EXPLORATION, not proof: whole validations in 2-8 threads, switch interval 1e-6 s; every
